@@ -413,6 +413,145 @@ QUEUE = Harness(
 HARNESSES = [H, H5, QUEUE]
 
 
+# ------------------------------------------------------------------------------ E-finished
+import copy as _copy  # noqa: E402
+
+FINISH = ["await stream.aclose()", "a timeout around the loop fires while it waits for the next event", "its filter raises and the subscriber handles that",
+          "break out of the loop"]
+
+
+class Plain:
+    a = Signal(Ev)
+    b = Signal(Ev)
+
+
+def fin_params(tier):
+    return [P("how", 0, 3), P("owner", 0, 1), P("clone", 0, 1), P("nafter", 1, 3)]
+
+
+@guard
+def fin_fn(a, tier):
+    """A subscriber whose iterator has FINISHED but which is still inside its `async with stream_events(...)` block, a later subscriber of the
+    same signal, and a subscriber of the same signal on a shallow COPY of the owner (taken after the signal had been used)."""
+    from symkit.choose import is_concrete, resumed
+
+    how, owner_kind, clone = pick(a["how"], 4), pick(a["owner"], 2), pick(a["clone"], 2)
+    na = a["nafter"]
+    if not is_concrete(na):
+        with resumed():
+            na = na - 1
+    else:
+        na = na - 1
+    nafter = 1 + pick(na, 3)
+    src = [Plain, Source][owner_kind]()
+    src.a  # the bound signal exists before the copy is taken
+    twin = _copy.copy(src) if clone else None
+    got = {"A": [], "B": [], "C": []}
+    sent = {"src": [], "twin": []}
+    problems = []
+
+    async def main():
+        async with anyio.create_task_group() as tg:
+            a_done, release_a = anyio.Event(), anyio.Event()
+
+            async def sub_a(*, task_status):
+                def flt(e):
+                    if how == 2 and e.n == 2:
+                        raise ValueError("bad event")
+                    return True
+
+                async with src.a.stream_events(flt) as stream:
+                    task_status.started()
+                    try:
+                        if how == 1:
+                            with anyio.move_on_after(5):
+                                async for ev in stream:
+                                    got["A"].append(ev)
+                        else:
+                            async for ev in stream:
+                                got["A"].append(ev)
+                                if how == 0:
+                                    await stream.aclose()
+                                    break
+                                if how == 3:
+                                    break
+                    except ValueError:
+                        pass
+                    a_done.set()
+                    await release_a.wait()  # ... and stays inside the block
+
+            async def sub(tag, signal, *, task_status):
+                async with signal.stream_events() as stream:
+                    task_status.started()
+                    async for ev in stream:
+                        got[tag].append(ev)
+
+            def dispatch(signal, key, n):
+                ev = Ev(n)
+                try:
+                    signal.dispatch(ev)
+                except Exception as e:  # noqa
+                    problems.append((f"dispatch-raised:{type(e).__name__}:finished-by={how}", repr(e)))
+                sent[key].append(ev)
+                return ev
+
+            await tg.start(sub_a)
+            await tg.start(sub, "B", src.a)
+            if clone:
+                await tg.start(sub, "C", twin.a)
+            dispatch(src.a, "src", 1)
+            await anyio.wait_all_tasks_blocked()
+            if how == 2:
+                dispatch(src.a, "src", 2)  # the filter raises on this one
+            if how == 1:
+                await anyio.sleep(10)  # the subscriber's timeout fires
+            await a_done.wait()
+            for i in range(nafter):
+                with warnings.catch_warnings():
+                    warnings.simplefilter("ignore")
+                    dispatch(src.a, "src", 10 + i)
+                if clone:
+                    dispatch(twin.a, "twin", 20 + i)
+                await anyio.wait_all_tasks_blocked()
+            release_a.set()
+            await anyio.wait_all_tasks_blocked()
+            tg.cancel_scope.cancel()
+
+    _, exc, _k = run(main)
+    summary = {"first_subscriber_finished_by": FINISH[how], "owner": ["plain class", "falsy value object"][owner_kind], "events_after_it_finished": nafter,
+               "subscriber_on_a_shallow_copy_of_the_owner": bool(clone)}
+    if exc is not None:
+        return FAIL(f"finished:raised:{type(exc).__name__}", repr(exc), summary)
+    if problems:
+        return FAIL("finished:" + problems[0][0], problems[0][1], summary)
+    if len(got["B"]) != len(sent["src"]) or any(x is not y for x, y in zip(got["B"], sent["src"])):
+        return FAIL(f"finished:another-subscriber-of-the-signal-lost-events:finished-by={how}", f"B got {[e.n for e in got['B']]} of {[e.n for e in sent['src']]}", summary)
+    if [e.n for e in got["A"]] != [1]:
+        return FAIL("finished:first-subscriber", f"{[e.n for e in got['A']]}", summary)
+    if clone:
+        if len(got["C"]) != len(sent["twin"]) or any(x is not y for x, y in zip(got["C"], sent["twin"])):
+            return FAIL("finished:stream-on-the-copys-signal-did-not-yield-exactly-the-copys-events", f"C got {[e.n for e in got['C']]} expected {[e.n for e in sent['twin']]}", summary)
+        if any(e.source is not twin for e in sent["twin"]) or any(e.source is not src for e in sent["src"]):
+            return FAIL("finished:event-not-stamped-with-the-dispatching-instance", "", summary)
+    return OK(summary, True)
+
+
+FIN = Harness(
+    prop="C10",
+    name="E-finished",
+    fn=fin_fn,
+    params=fin_params,
+    cube=lambda tier: 0,
+    title="a subscriber that finished its iterator but is still inside the block; a stream on a shallow copy of the owner",
+    bound_text=lambda tier: "first subscriber of src.a finishes by {" + "; ".join(FINISH) + "} and stays inside its block while 1-3 more events are dispatched; a second subscriber of "
+    "src.a subscribed later; optionally a subscriber of copy.copy(src).a (copy taken after src.a was first used) with dispatches on both instances; owner plain / falsy value object",
+    oracle="dispatch never raises; the second subscriber yields every src.a event; the copy's stream yields exactly the copy's events; sources are the dispatching instances",
+    outside="what the finished subscriber's queue holds (judged by E-history / E-queue)",
+    stubs=STUBS_COMMON,
+)
+HARNESSES.append(FIN)
+
+
 # ------------------------------------------------------------------------------ E-reuse (scenario shared with C11)
 from . import c11 as _c11  # noqa: E402
 
